@@ -65,6 +65,12 @@ def make_cases(rng, tier):
     for name in ["17", " 42 ", "-5", "+8", "x9", "9223372036854775807", "9223372036854775808", "1_0", "rule a", "0"]:
         for k in ["atname", "atid", "atdesc", "atsal"]:
             cases.append(ret_case(cid, emath(matom(const((k,)))), [], name=name, desc="some desc", sal=rng.choice([-4, 0, 12]))); cid += 1
+    # metadata belongs to the ENCLOSING rule: a rule without description / salience / numeric name that follows, in the same text,
+    # a rule that has them must not inherit anything (name "100" before "alpha": @id of alpha is 0)
+    for k in ["atname", "atid", "atdesc", "atsal"]:
+        for (pn, pd, ps), (n, d, sl) in [(("100", "dprev", 50), ("alpha", None, None)), ((" 7 ", "dprev", 41), ("9x", "own", None)), (("alpha", None, None), ("12", None, 3)), (("-3", "dd", -9), ("zz", None, 2))]:
+            prelude = [(pn, pd, ps, block([], ("expr", emath(matom(const((k,)))))))]
+            cases.append(ret_case(cid, emath(mk_mbin("+", matom(const((k,))), matom(const((k,))))) if k in ("atid", "atsal") else emath(matom(const((k,)))), [], name=n, desc=d, sal=sl, prelude=prelude)); cid += 1
     # names and descriptions are arbitrary string tokens: a doubled quote or a backslash-quote inside is part of the name (the
     # listener interprets no escape, it trims the outer quotes), and @name / @desc are that name and that description
     for name, desc in [('a""b', "plain"), ("plain", 'd""e'), ('q\\"r', 'say \\"hi\\" twice'), ("back\\slash", 'x""')]:
